@@ -781,7 +781,9 @@ pub fn matrix_behaviour(r: &mut Rng, t: &mut Trace) {
                             t.run(&mut w, op);
                         }
                     } else {
-                        if !(named == delivered && named_amt == amount) && !r.chance(1, 2) {
+                        // every named asset with the matching amount is always run (the adversarial core of the
+                        // matrix); mismatching amounts are sampled
+                        if named_amt != amount && !r.chance(1, 2) {
                             continue;
                         }
                         let op = json!({"op": "cw20_send", "token": id_of(delivered), "caller": "carol", "contract": paddr, "amount": st(amount),
@@ -886,6 +888,16 @@ fn chains_from(w: &World, start: &Value, hops: usize) -> Vec<Vec<(Value, Value)>
     out.into_iter().map(|(r, _)| r).collect()
 }
 
+/// an asset that a pair trades against `y`, other than `avoid` (for building two-output routes)
+fn route_other_asset(w: &World, y: &Value, avoid: &Value) -> Value {
+    for j in 0..w.pairs.len() {
+        let (b0, b1) = pair_infos(w, j);
+        if b0 == *y && b1 != *avoid { return b1; }
+        if b1 == *y && b0 != *avoid { return b0; }
+    }
+    avoid.clone()
+}
+
 pub fn routes_behaviour(r: &mut Rng, t: &mut Trace) {
     let (setup, _) = std_setup_with(r, 1u128 << 110, false, true);
     let mut w = World::build(&setup);
@@ -930,6 +942,61 @@ pub fn routes_behaviour(r: &mut Rng, t: &mut Trace) {
             }
             let op = op_route(&w, "carol", &route, amount, st(quote), Value::String("bob".to_string()));
             t.run(&mut w, op);
+            // hops that do not chain, built from this route's first hop: every shape quoted, then executed
+            if hops == 1 {
+                let (x, b) = route[0].clone();
+                // another pair paying the same asset b
+                let mut other: Option<(Value, Value)> = None;
+                for j in 0..np {
+                    let (b0, b1) = pair_infos(&w, j);
+                    if b0 == b && b1 != x { other = Some((b1, b0)); }
+                    else if b1 == b && b0 != x { other = Some((b0, b1)); }
+                }
+                if let Some((y, _)) = other.clone() {
+                    let amount = mag / 900 + 13;
+                    // (1) two pairs merging into one output, only the first head funded
+                    let merge = vec![(x.clone(), b.clone()), (y.clone(), b.clone())];
+                    t.run(&mut w, json!({"op": "q_router_sim", "amount": st(amount), "operations": route_ops(&merge)}));
+                    let op = op_route(&w, "carol", &merge, amount, nul(), Value::String("bob".to_string()));
+                    t.run(&mut w, op);
+                    // (2) a two-hop chain given in the wrong order
+                    let chain2 = chains_from(&w, &x, 2);
+                    if let Some(c2) = chain2.first() {
+                        let wrong = vec![c2[1].clone(), c2[0].clone()];
+                        t.run(&mut w, json!({"op": "q_router_sim", "amount": st(amount), "operations": route_ops(&wrong)}));
+                        // funded with the asset the intended chain starts from
+                        let op = if is_native(&c2[0].0) {
+                            json!({"op": "router_ops", "caller": "carol", "operations": route_ops(&wrong), "min": nul(), "to": nul(),
+                                   "funds": [[id_of(&c2[0].0), st(amount)]]})
+                        } else {
+                            json!({"op": "cw20_send", "token": id_of(&c2[0].0), "caller": "carol", "contract": w.router, "amount": st(amount),
+                                   "hook": {"kind": "router_ops", "operations": route_ops(&wrong), "min": nul(), "to": nul()}})
+                        };
+                        t.run(&mut w, op);
+                    }
+                }
+            }
+            // (3) two independent chains (two dangling outputs) with every native chain head funded, with and
+            //     without a minimum: must be refused whatever the funds
+            if hops == 1 {
+                let mut heads: Vec<(Value, Value)> = vec![];
+                for j in 0..np {
+                    let (b0, b1) = pair_infos(&w, j);
+                    for (o, a) in [(b0.clone(), b1.clone()), (b1.clone(), b0.clone())] {
+                        if is_native(&o) && !heads.iter().any(|(ho, ha)| *ho == o || *ha == a || *ha == o || *ho == a) {
+                            heads.push((o, a));
+                        }
+                    }
+                }
+                if heads.len() >= 2 {
+                    let amount = mag / 800 + 17;
+                    for min in [nul(), st(0)] {
+                        let two = json!([{"offer_info": heads[0].0, "ask_info": heads[0].1}, {"offer_info": heads[1].0, "ask_info": heads[1].1}]);
+                        let funds = funds_for(&[(heads[0].0.clone(), amount), (heads[1].0.clone(), amount + 1)]);
+                        t.run(&mut w, json!({"op": "router_ops", "caller": "carol", "operations": two, "min": min, "to": nul(), "funds": funds}));
+                    }
+                }
+            }
             // quote-then-swap on every pair of the route, both directions (C12 forward on fee-free and ordinary pairs)
             for (o, _a) in route.iter() {
                 for j in 0..np {
